@@ -5,6 +5,7 @@ import (
 	"go/constant"
 	"go/token"
 	"go/types"
+	"os"
 	"sort"
 	"strings"
 
@@ -103,10 +104,22 @@ type Exec struct {
 	rootFrame *Frame
 	ufunUsed  map[string]bool
 	ufunDecl  []string
+	lemmasUsed map[string]bool
+	recActive map[*Pred]bool
+	recInst   map[string]*recInstance
+	readLog   map[string]Term
 }
 
 func (ex *Exec) unsupported(what string) {
 	ex.vc.note("abstracted: " + what)
+}
+
+// outsideSubset marks the function as not verifiable by this engine: none of
+// its obligations may be reported as proved.
+func (ex *Exec) outsideSubset(why string) {
+	if ex.outside == nil || !contains(ex.outside, why) {
+		ex.outside = append(ex.outside, why)
+	}
 }
 
 // ---------- state keys ----------
@@ -135,10 +148,14 @@ func shortKey(k string) string {
 }
 
 func (ex *Exec) get(st State, k string, so Sort) Term {
-	if t, ok := st.m[k]; ok {
-		return t
+	t, ok := st.m[k]
+	if !ok {
+		t = ex.keyInit(k, so)
 	}
-	return ex.keyInit(k, so)
+	if ex.readLog != nil {
+		ex.readLog[k] = t
+	}
+	return t
 }
 
 // fieldArr returns the key and element sort used for direct access to field i
@@ -227,6 +244,10 @@ func (ex *Exec) store(st State, pc Term, a *Addr, t types.Type, v Term) State {
 		nv := ex.vc.def("L", ex.updatePath(cur, a.Path, v))
 		if len(a.Path) == 0 {
 			nv.Clo = v.Clo
+			nv.LAddr = v.LAddr
+			nv.Lost = v.Lost
+		} else if v.LAddr != nil || v.Lost {
+			ex.outsideSubset("a pointer to a local variable is stored inside a local aggregate")
 		}
 		return st.with(a.Local.Key, nv)
 	}
@@ -257,6 +278,9 @@ func (ex *Exec) store(st State, pc Term, a *Addr, t types.Type, v Term) State {
 		return st
 	}
 	so := ex.te.sortOf(t)
+	if v.LAddr != nil || v.Lost {
+		ex.outsideSubset("a pointer to a local variable is stored in the heap")
+	}
 	if v.Sort != so {
 		// defensive: sorts must agree
 		v = ex.coerce(v, so)
@@ -306,6 +330,11 @@ func (ex *Exec) newFrame(fn *ssa.Function, parent *Frame) *Frame {
 		fr.depth = parent.depth + 1
 	}
 	fr.escapes = escapingAllocs(fn)
+	if os.Getenv("RAINVC_DEBUG") != "" {
+		for al := range fr.escapes {
+			fmt.Fprintf(os.Stderr, "escaping in %s: %s (%s)\n", fn.Name(), al.Name(), al.Comment)
+		}
+	}
 	for _, b := range fn.Blocks {
 		for _, in := range b.Instrs {
 			if al, ok := in.(*ssa.Alloc); ok && al.Comment != "" {
@@ -317,6 +346,22 @@ func (ex *Exec) newFrame(fn *ssa.Function, parent *Frame) *Frame {
 }
 
 var escCache = map[*ssa.Function]map[*ssa.Alloc]bool{}
+
+var theGlobal *Global
+
+// trackableCallee: a callee that doCall will execute inline (when the depth
+// budget allows), so that a pointer to a local passed to it stays symbolic.
+func trackableCallee(callee *ssa.Function) bool {
+	if callee.Blocks == nil || callee.Parent() != nil || !isRainFn(callee) || hasLoops(callee) || instrCount(callee) > 60 {
+		return false
+	}
+	if theGlobal != nil && theGlobal.cs != nil {
+		if fc := theGlobal.cs.Funcs[fnID(callee)]; fc != nil && !fc.Inline {
+			return false
+		}
+	}
+	return true
+}
 
 // escapingAllocs: allocs whose address is used other than as the address
 // operand of a load/store reached through FieldAddr/IndexAddr chains.
@@ -343,7 +388,44 @@ func escapingAllocs(fn *ssa.Function) map[*ssa.Alloc]bool {
 				}
 			case *ssa.Store:
 				if r.Val == v {
+					// the pointer is spilled into a plain local cell (parameter spill of an
+					// inlined callee, or `p := &x`): follow every load of that cell
+					dst, ok := r.Addr.(*ssa.Alloc)
+					if !ok || dst.Referrers() == nil {
+						return false
+					}
+					for _, dr := range *dst.Referrers() {
+						switch dr := dr.(type) {
+						case *ssa.Store:
+							if dr.Addr != dst {
+								return false
+							}
+						case *ssa.UnOp:
+							if dr.Op != token.MUL || !addrOnly(dr, seen) {
+								return false
+							}
+						case *ssa.DebugRef:
+						default:
+							return false
+						}
+					}
+				}
+			case ssa.CallInstruction:
+				if _, isGo := r.(*ssa.Go); isGo {
 					return false
+				}
+				if _, isDefer := r.(*ssa.Defer); isDefer {
+					return false
+				}
+				c := r.Common()
+				callee := c.StaticCallee()
+				if callee == nil || c.Value == v || !trackableCallee(callee) {
+					return false
+				}
+				for i, a := range c.Args {
+					if a == v && (i >= len(callee.Params) || !addrOnly(callee.Params[i], seen)) {
+						return false
+					}
 				}
 			case *ssa.FieldAddr:
 				if !addrOnly(r, seen) {
@@ -419,10 +501,8 @@ func (ex *Exec) constTerm(c *ssa.Const) Term {
 		if so == SReal {
 			return T(c.Value.ExactString()+".0", SReal)
 		}
-		bi, ok := constant.Val(c.Value).(interface{ String() string })
-		_ = bi
 		s := c.Value.ExactString()
-		if ok && strings.HasPrefix(s, "-") {
+		if strings.HasPrefix(s, "-") {
 			return T("(- "+s[1:]+")", SInt)
 		}
 		return T(s, SInt)
@@ -447,7 +527,14 @@ func (ex *Exec) addrOf(fr *Frame, v ssa.Value) *Addr {
 	if ok {
 		el = pt.Elem()
 	}
-	return &Addr{Ref: ex.val(fr, v), Elem: el}
+	t := ex.val(fr, v)
+	if t.LAddr != nil {
+		return t.LAddr
+	}
+	if t.Lost {
+		ex.outsideSubset("a pointer to a local variable is merged from different locals (" + fr.fn.Name() + ")")
+	}
+	return &Addr{Ref: t, Elem: el}
 }
 
 // ---------- CFG helpers ----------
